@@ -106,11 +106,18 @@ def _op_sequences(ops):
 
 def xhtml_sequences(t0: int, t1: int, br: bool) -> bool:
     """
-    pre: 0 <= t0 <= 3 and 0 <= t1 <= 3
+    pre: 0 <= t0 <= 7 and 0 <= t1 <= 7
     post: _
     """
+    t0, t1, br = mark.pick(t0, 0, 7), mark.pick(t1, 0, 7), mark.pickb(br)
+    with mark.untraced():
+        return _xhtml_sequences(t0, t1, br)
+
+
+def _xhtml_sequences(t0, t1, br):
     f = io.StringIO()
-    texts = ['one', 'two\nlines', '\nlead<&>', 'trail\n\n']
+    # other characters that str.splitlines() treats as line ends are ordinary text for the writer: only LF becomes <br/>
+    texts = ['one', 'two\nlines', '\nlead<&>', 'trail\n\n', 'COMPANY\r\nWELL', 'trailing CR\r', 'DEPTH\x85 0.1 in', 'RUN 1\u2028RUN 2\u2029']
     with XmlWrite.XhtmlStream(f) as xs:
         with XmlWrite.Element(xs, 'body'):
             with XmlWrite.Element(xs, 'p', {'class': 'c"1'}):
